@@ -1318,3 +1318,305 @@ func c28FinalVerdict(c *Ctx) {
 		c.Check(bad == "", "C28.final", "unlockedDeleteHostInfo:"+cd.name, c.P.Pos(fn.Pos()), "the verdict is false on every way back to the loop head", "an iteration in which "+cd.g.Name+" reaches the next iteration ("+bad+") with the verdict unchanged: the delete reports that no tunnel to the peer remains although one does")
 	}
 }
+
+// ---------------------------------------------------------------------------------------
+// Round B seeds: rules evaluated under a second property id (the structural condition is necessary for both), and new rules.
+
+// copyObligations runs another property's rule function in a sub-context and re-files the obligations of one rule under a new id.
+func copyObligations(c *Ctx, run func(*Ctx), fromRule, toRule, subProp string) {
+	sub := NewCtx(subProp, c.Tier, c.Seed)
+	sub.P = c.P
+	run(sub)
+	for _, o := range sub.Obs {
+		if o.Rule == fromRule && o.Construct != "floor" {
+			c.add(toRule, o.Construct, o.Verdict, o.Pos, o.Detail, o.Path)
+		}
+	}
+	for f := range sub.Funcs {
+		c.Funcs[f] = true
+	}
+}
+
+func init() {
+	wrap := func(id string, extra func(*Ctx), canaries ...Canary) {
+		p := registry[id]
+		orig, origCan := p.Run, p.Canaries
+		p.Run = func(c *Ctx) { orig(c); extra(c) }
+		p.Canaries = func(c *Ctx) []Canary { return append(origCan(c), canaries...) }
+	}
+	// C04 (seed C04b: the two containment loops of checkCAConstraints folded into a helper that starts from "permitted" and skips
+	// prefixes of the other address family): issuance is bounded by the very constraint function the verifier uses, so its
+	// for-all/exists rule (C01.constraints) is a necessary condition of C04 too.
+	wrap("C04", func(c *Ctx) {
+		c.Rule("C04.constraints", "K1 (shared with C01.constraints): checkCAConstraints returns nil only if every group is in the signer's list and every network / unsafe network is contained in one of the signer's, whenever the signer's list is non-empty", 4)
+		copyObligations(c, c01Constraints, "C01.constraints", "C04.constraints", "C01")
+	}, Canary{Name: "constraint-loop-accepts-unmatched-family", File: "cert/ca_pool.go", Old: "\t\t\tif !found {\n\t\t\t\treturn fmt.Errorf(\"certificate contained a network assignment outside the limitations of the signing ca: %s\", certNetwork.String())\n\t\t\t}\n", New: "\t\t\tif !found && certNetwork.Addr().Is4() {\n\t\t\t\treturn fmt.Errorf(\"certificate contained a network assignment outside the limitations of the signing ca: %s\", certNetwork.String())\n\t\t\t}\n", Rule: "C04.constraints"})
+	// C15 (seed C15b: the initiator accepted a response whose certificate holds via.relay.PeerAddr, the address the relay claims,
+	// instead of the address it dialled): who a relayed handshake is attributed to must come from the handshake's own certificate
+	// and the dialled address; C09's install rule is that condition.
+	wrap("C15", func(c *Ctx) {
+		c.Rule("C15.responder-identity", "K1/K11 (shared with C09.install): a pending handshake completes only if the address that was dialled is one of the responder certificate's addresses - decided from the certificate, never from what the relay frame claims", 4)
+		copyObligations(c, runC09, "C09.install", "C15.responder-identity", "C09")
+	}, Canary{Name: "relay-claim-replaces-certificate-identity", File: "handshake_manager.go", Old: "\tif !correctHostResponded {\n\t\tf.l.Info(\"Incorrect host responded to handshake\",", New: "\tif !correctHostResponded && !via.IsRelayed {\n\t\tf.l.Info(\"Incorrect host responded to handshake\",", Rule: "C15.responder-identity"})
+	// C06 (seed C06b: a "defensive reset" of Result.RemoteIndex/HandshakeTime on the recoverable read-error path reached into a
+	// Result that had already been handed to the caller)
+	wrap("C06", c06ResultWriters, Canary{Name: "result-reset-on-rejected-packet", File: "handshake/machine.go", Old: "\t\tif !bytes.Equal(hashBefore, m.hs.ChannelBinding()) {\n\t\t\tm.failed = true\n\t\t}\n", New: "\t\tif !bytes.Equal(hashBefore, m.hs.ChannelBinding()) {\n\t\t\tm.failed = true\n\t\t}\n\t\tm.result.RemoteIndex = 0\n", Rule: "C06.result-writers"})
+	// C47 (seed C47b: Parse's length guard became `cap(b) < Len` followed by b = b[:Len])
+	wrap("C47", c47LenGuard, Canary{Name: "parse-guards-capacity-not-length", File: "header/header.go", Old: "func (h *H) Parse(b []byte) error {\n\tif len(b) < Len {", New: "func (h *H) Parse(b []byte) error {\n\tif cap(b) < Len {", Rule: "C47.len-guard"})
+	// C02 (seed C02b: Copy() cloned details.networks into the copy's unsafeNetworks)
+	wrap("C02", c02CopyFieldwise, Canary{Name: "copy-takes-unsafe-networks-from-networks", File: "cert/cert_v1.go", Old: "\t\tcopy(nc.details.unsafeNetworks, c.details.unsafeNetworks)\n", New: "\t\tcopy(nc.details.unsafeNetworks, c.details.networks)\n", Rule: "C02.copy-fieldwise"})
+	// C03 (seed C03b: v1 MarshalForHandshakes also reset the curve, which v1 decoding reads from the encoded details)
+	wrap("C03", c03HandshakeOmitsKeyOnly, Canary{Name: "handshake-encoding-drops-curve", File: "cert/cert_v1.go", Old: "\tpubKey := c.details.publicKey\n\tc.details.publicKey = nil\n\trawCertNoKey, err := c.Marshal()\n", New: "\tpubKey := c.details.publicKey\n\tc.details.publicKey = nil\n\tcurve := c.details.curve\n\tc.details.curve = 0\n\tdefer func() { c.details.curve = curve }()\n\trawCertNoKey, err := c.Marshal()\n", Rule: "C03.handshake-omits-key-only"})
+}
+
+func c06ResultWriters(c *Ctx) {
+	c.Rule("C06.result-writers", "K2: the fields of handshake.Result are written only by the constructor, processPayload (peer index and time), validateCert (verified certificate) and completed (keys, message index): no other path can alter a Result, in particular not one already handed to the caller", 5)
+	res := c.NamedType("handshake", "Result")
+	if res == nil {
+		return
+	}
+	allowed := map[string]map[string]bool{}
+	allow := func(fn string, fields ...string) {
+		for _, f := range fields {
+			if allowed[f] == nil {
+				allowed[f] = map[string]bool{}
+			}
+			allowed[f][fn] = true
+		}
+	}
+	allow("handshake.NewMachine", "MyCert", "LocalIndex", "Initiator", "Cipher", "HandshakeTime", "RemoteIndex", "EKey", "DKey", "RemoteCert", "MessageIndex")
+	allow("(*handshake.Machine).processPayload", "RemoteIndex", "HandshakeTime")
+	allow("(*handshake.Machine).validateCert", "RemoteCert")
+	allow("(*handshake.Machine).completed", "EKey", "DKey", "MessageIndex", "Cipher")
+	allow("(*handshake.Machine).marshalOutgoing", "HandshakeTime", "LocalIndex", "MyCert") // allocates the local index and picks the certificate version when the first outgoing message is built
+	allow("(*handshake.Machine).buildResponse", "HandshakeTime", "LocalIndex")
+	allow("(*handshake.Machine).Initiate", "HandshakeTime", "LocalIndex")
+	seen := map[string]int{}
+	for _, f := range c.moduleFuncs() {
+		if c.isTestFile(f.Pos()) {
+			continue
+		}
+		eachInstr(f, func(in ssa.Instruction) {
+			st, ok := in.(*ssa.Store)
+			if !ok {
+				return
+			}
+			fa, ok := st.Addr.(*ssa.FieldAddr)
+			if !ok {
+				return
+			}
+			n := recvNamed(fa.X.Type())
+			if n == nil || n.Obj() != res.Obj() {
+				return
+			}
+			if root, _ := addrRoot(fa); isFreshAllocDeep(root) {
+				return // a Result literal under construction
+			}
+			field := fieldOfAddr(fa).Name()
+			fnm := fnName(topFunc(f))
+			seen[field+"<-"+fnm]++
+			cons := fmt.Sprintf("Result.%s<-%s", field, fnm)
+			c.Check(allowed[field][fnm], "C06.result-writers", cons, c.instrPos(in), "tabled writer", "handshake.Result."+field+" is written by "+fnm+", which is not one of the functions that establish it: indexes, time or keys the two sides agreed on can be changed afterwards (also in a Result the caller already holds)")
+		})
+	}
+	c.Note("C06.result-writers: %d (field, writer) pairs", len(seen))
+}
+
+func c47LenGuard(c *Ctx) {
+	c.Rule("C47.len-guard", "K1: the refusal of short input in (*H).Parse compares the LENGTH of the input (not its capacity) with header.Len, and the input is not re-sliced beyond its length", 1)
+	fn := c.Func(Ref{"header", "H", "Parse"})
+	if fn == nil || len(fn.Params) < 2 {
+		return
+	}
+	b := fn.Params[1]
+	lenK, _ := constantInt64(c.ConstVal("header", "Len"))
+	found, bad := 0, ""
+	eachInstr(fn, func(in ssa.Instruction) {
+		switch x := in.(type) {
+		case *ssa.BinOp:
+			for _, pr := range [][2]ssa.Value{{x.X, x.Y}, {x.Y, x.X}} {
+				call, ok := pr[0].(*ssa.Call)
+				if !ok || len(call.Call.Args) != 1 || call.Call.Args[0] != ssa.Value(b) {
+					continue
+				}
+				if k, ok := constInt(pr[1]); !ok || k != lenK {
+					continue
+				}
+				switch builtinName(call) {
+				case "len":
+					found++
+				case "cap":
+					bad = "the guard compares cap(b), not len(b), with header.Len at " + c.instrPos(in)
+				}
+			}
+		case *ssa.Slice:
+			// b = b[:k] with k beyond len(b) is only legal within the capacity: re-slicing the input upwards reads stale bytes
+			if x.X == ssa.Value(b) && x.High != nil {
+				if _, isConst := x.High.(*ssa.Const); isConst && x.Low == nil {
+					if k, ok := constInt(x.High); ok && k >= lenK && found == 0 {
+						bad = "the input is re-sliced to " + fmt.Sprint(k) + " bytes before its length was tested at " + c.instrPos(in)
+					}
+				}
+			}
+		}
+	})
+	c.Check(bad == "" && found > 0, "C47.len-guard", "Parse:len(b)<Len", c.P.Pos(fn.Pos()), "length guard on len(b)", "Parse does not refuse input shorter than the header by its length: "+bad+" - a short window onto a reused buffer is parsed from stale bytes")
+}
+
+func c02CopyFieldwise(c *Ctx) {
+	c.Rule("C02.copy-fieldwise", "K11: in Copy() of both certificate versions every field of the copy is filled from the same-named field of the original (allocation size and copied contents alike)", 2)
+	for _, ver := range []struct{ recv, det string }{{"certificateV1", "detailsV1"}, {"certificateV2", "detailsV2"}} {
+		fn := c.Func(Ref{"cert", ver.recv, "Copy"})
+		if fn == nil {
+			continue
+		}
+		var types_ []*typesNamed
+		for _, n := range []string{ver.recv, ver.det} {
+			if t := c.NamedType("cert", n); t != nil {
+				types_ = append(types_, t)
+			}
+		}
+		ours := func(t types.Type) bool {
+			nt := recvNamed(t)
+			for _, tt := range types_ {
+				if nt != nil && nt.Obj() == tt.Obj() {
+					return true
+				}
+			}
+			return false
+		}
+		// the certificate field a value is (a slice / the length / a load of): the nearest field address, not a whole-slice provenance
+		var fieldsOf func(v ssa.Value) map[string]bool
+		fieldsOf = func(v ssa.Value) map[string]bool {
+			out := map[string]bool{}
+			var walk func(v ssa.Value, d int)
+			walk = func(v ssa.Value, d int) {
+				if v == nil || d > 8 {
+					return
+				}
+				switch x := v.(type) {
+				case *ssa.FieldAddr:
+					if ours(x.X.Type()) && fieldOfAddr(x).Name() != "details" {
+						out[fieldOfAddr(x).Name()] = true
+						return
+					}
+					walk(x.X, d+1)
+				case *ssa.Field:
+					if ours(x.X.Type()) && fieldOfVal(x).Name() != "details" {
+						out[fieldOfVal(x).Name()] = true
+						return
+					}
+					walk(x.X, d+1)
+				case *ssa.UnOp:
+					walk(x.X, d+1)
+				case *ssa.Slice:
+					walk(x.X, d+1)
+				case *ssa.MakeSlice:
+					walk(x.Len, d+1)
+				case *ssa.Convert:
+					walk(x.X, d+1)
+				case *ssa.ChangeType:
+					walk(x.X, d+1)
+				case *ssa.Call:
+					if bn := builtinName(x); bn == "len" || bn == "cap" {
+						walk(x.Call.Args[0], d+1)
+					} else if o := calleeObj(x); o != nil && o.Pkg() != nil && o.Pkg().Path() == "slices" && o.Name() == "Clone" {
+						walk(x.Call.Args[0], d+1)
+					}
+				case *ssa.Phi:
+					for _, e := range x.Edges {
+						walk(e, d+1)
+					}
+				}
+			}
+			walk(v, 0)
+			return out
+		}
+		var diffs []string
+		n := 0
+		eachInstr(fn, func(in ssa.Instruction) {
+			switch x := in.(type) {
+			case *ssa.Store:
+				fa, ok := x.Addr.(*ssa.FieldAddr)
+				if !ok {
+					return
+				}
+				nt := recvNamed(fa.X.Type())
+				isOurs := false
+				for _, t := range types_ {
+					if nt != nil && nt.Obj() == t.Obj() {
+						isOurs = true
+					}
+				}
+				if !isOurs || fieldOfAddr(fa).Name() == "details" {
+					return
+				}
+				dst := fieldOfAddr(fa).Name()
+				src := fieldsOf(x.Val)
+				if len(src) == 0 {
+					return // constant / fresh value
+				}
+				n++
+				if len(src) != 1 || !src[dst] {
+					diffs = append(diffs, fmt.Sprintf("%s is filled from %s at %s", dst, setStr(src), c.instrPos(in)))
+				}
+			case *ssa.Call:
+				if builtinName(x) != "copy" {
+					return
+				}
+				d, s := fieldsOf(x.Call.Args[0]), fieldsOf(x.Call.Args[1])
+				if len(d) == 0 && len(s) == 0 {
+					return
+				}
+				n++
+				if len(d) != 1 || len(s) != 1 || setStr(d) != setStr(s) {
+					diffs = append(diffs, fmt.Sprintf("copy(%s, %s) at %s", setStr(d), setStr(s), c.instrPos(in)))
+				}
+			}
+		})
+		c.Check(len(diffs) == 0 && n > 0, "C02.copy-fieldwise", ver.recv+".Copy", c.P.Pos(fn.Pos()), fmt.Sprintf("%d field transfers, each from the same-named field", n), "Copy() does not reproduce the certificate field by field: "+strings.Join(diffs, "; ")+" - the alternate-signature fingerprint is computed over different content, so blocklisting one signature form no longer covers the other")
+	}
+}
+
+func c03HandshakeOmitsKeyOnly(c *Ctx) {
+	c.Rule("C03.handshake-omits-key-only", "K2: MarshalForHandshakes (both versions) blanks no certificate field other than the public key; every other field reaches the encoder as getRawDetails / rawDetails provide it", 2)
+	for _, recv := range []string{"certificateV1", "certificateV2"} {
+		fn := c.Func(Ref{"cert", recv, "MarshalForHandshakes"})
+		if fn == nil {
+			continue
+		}
+		bad := ""
+		for _, f := range funcsWithAnon(fn) {
+			eachInstr(f, func(in ssa.Instruction) {
+				st, ok := in.(*ssa.Store)
+				if !ok {
+					return
+				}
+				fa, ok := st.Addr.(*ssa.FieldAddr)
+				if !ok {
+					return
+				}
+				nt := recvNamed(fa.X.Type())
+				if nt == nil || nt.Obj().Pkg() == nil || nt.Obj().Pkg().Path() != PkgPath("cert") {
+					return
+				}
+				name := fieldOfAddr(fa).Name()
+				if strings.EqualFold(name, "publicKey") {
+					return
+				}
+				if root, _ := addrRoot(fa); isFreshAllocDeep(root) {
+					// a message struct being assembled: only a blank (zero / nil) value is an omission
+					if k, isK := st.Val.(*ssa.Const); !isK || !(k.Value == nil || k.Value.ExactString() == "0" || k.Value.ExactString() == "\"\"" || k.Value.ExactString() == "false") {
+						return
+					}
+				}
+				if k, isK := st.Val.(*ssa.Const); isK && (k.Value == nil || k.Value.ExactString() == "0" || k.Value.ExactString() == "\"\"" || k.Value.ExactString() == "false") {
+					bad = nt.Obj().Name() + "." + name + " is blanked at " + c.instrPos(in)
+				} else if !isFreshAllocDeep(func() ssa.Value { r, _ := addrRoot(fa); return r }()) {
+					bad = nt.Obj().Name() + "." + name + " of the certificate is overwritten at " + c.instrPos(in)
+				}
+			})
+		}
+		c.Check(bad == "", "C03.handshake-omits-key-only", recv+".MarshalForHandshakes", c.P.Pos(fn.Pos()), "only the public key is omitted", "the handshake encoding alters a certificate field other than the public key ("+bad+"): the decoder, which takes only the key (and for v2 the curve) from the handshake, rebuilds a different certificate or refuses it")
+	}
+}
